@@ -76,6 +76,16 @@ def single_writer(prog, rep):
         rep.check(vals["id"] == ["id"] and vals["duration"] == ["duration"] and vals["data"] in (["data or {}"], ["data if data is not None else {}"]) and any(v == "_timestamp_parse(timestamp)" or v == "timestamp" for v in vals["timestamp"]), "ONE-WRITER", init.short, "values", f"{vals}", f"__init__ stores {vals}: each field must be set from the parameter of the same name", init.loc())
 
 
+def id_setter(prog, rep, rule="ID-SETTER"):
+    """assigning an id (None included) is what it says: the setter stores the value on every path"""
+    rep.rule(rule, "the Event.id setter stores the value it is given, None included, on every path (`self['id'] = id`): clearing an id by assigning None is how an event is turned back into a new one (the migration does this for every legacy event; an id that sticks makes the bulk insert treat them as updates of rows that do not exist)")
+    fi = prog.func("Event.id.setter")
+    p = fi.params[1]
+    body = [s_ for s_ in fi.node.body if not (isinstance(s_, ast.Expr) and isinstance(s_.value, ast.Constant))]
+    ok = len(body) == 1 and isinstance(body[0], ast.Assign) and norm(body[0].targets[0]) == "self['id']" and norm(body[0].value) == p
+    rep.check(ok, rule, fi.short, "stores what it is given", f"self['id'] = {p}", f"the id setter is `{'; '.join(norm(x)[:60] for x in body)}`: the value assigned is not stored on every path (an id that cannot be reset to None survives `event.id = None`)", fi.loc())
+
+
 def event_order(prog, rep, rule="ORDER-KEY"):
     """sorted(events) is total for events: Event.__lt__ compares the timestamps and nothing that may be None or of mixed types"""
     rep.rule(rule, "Event.__lt__ on two events returns self.timestamp < other.timestamp (a comparison of two aware datetimes, always defined): comparing further fields (an id that is None for fresh events and an int for stored ones, a data dict) makes sorted() raise TypeError for events that tie on the earlier fields")
@@ -120,6 +130,10 @@ def normalisation(prog, rep):
     t = norm(fi.node)
     okp = f"iso8601.parse_date({x}) if isinstance({x}, str) else {x}" in t or (f"if isinstance({x}, str):" in t and f"iso8601.parse_date({x})" in t)
     rep.check(okp, "NORMALISE", fi.short, "string parsing", "iso8601.parse_date for str input, datetimes as is", "string input is not parsed with iso8601.parse_date (or non-strings are)", fi.loc())
+    # ... on EVERY path: no second, home-made way of turning text into a datetime next to it (a fast path that builds
+    # datetime(...) from regex groups, strptime, fromisoformat: each has its own idea of fractions, offsets and 'Z')
+    other = [c for c in walk_with_nested_exprs(fi.node) if isinstance(c, ast.Call) and (norm(c.func) in ("datetime", "datetime.datetime", "datetime.strptime", "datetime.fromisoformat", "datetime.datetime.strptime", "datetime.datetime.fromisoformat", "dateutil.parser.parse", "parser.parse", "ciso8601.parse_datetime") or (isinstance(c.func, ast.Attribute) and c.func.attr in ("strptime", "fromisoformat", "fromtimestamp")))]
+    rep.check(not other, "NORMALISE", fi.short, "one parser", "iso8601.parse_date is the only way text becomes a datetime", (f"`{norm(other[0])[:70]}` builds the datetime by other means on some path: text the ISO standard allows (a fraction of one or two digits, a basic-format offset) is read differently there, so the event holds another instant than the string denotes" if other else ""), fi.loc(other[0]) if other else fi.loc())
 
     def replace_kw(e):
         """<v>.replace(<kw>=value) applications inside an expression -> list of (kw, value expr, receiver text)"""
